@@ -257,3 +257,132 @@ pub fn hashmap_try_reserve_cut<K, V, S, A: std::alloc::Allocator>(
     kani::assume(false);
     Ok(())
 }
+
+// ---------------------------------------------------------------------------------------------
+// C16: SmallVec constructors with pre-reserved heap capacity. Semantically the same empty vector;
+// the only difference is that pushes inside the operation under test never re-allocate
+// (`SmallVec::try_grow` sends CBMC's array theory into an unbounded memory blow-up, DESIGN 2.4).
+// ---------------------------------------------------------------------------------------------
+pub const SV_SPARE: usize = 4;
+
+pub fn smallvec_new_spare<A: smallvec::Array>() -> smallvec::SmallVec<A> {
+    smallvec::SmallVec::from_vec(Vec::with_capacity(SV_SPARE))
+}
+
+/// Larger spare capacity for the valued (A2) instances, whose results have up to 2p+1 entries.
+pub const SV_SPARE6: usize = 6;
+pub fn smallvec_new_spare6<A: smallvec::Array>() -> smallvec::SmallVec<A> {
+    smallvec::SmallVec::from_vec(Vec::with_capacity(SV_SPARE6))
+}
+pub fn smallvec_with_capacity_spare6<A: smallvec::Array>(n: usize) -> smallvec::SmallVec<A> {
+    assert!(n <= SV_SPARE6);
+    smallvec::SmallVec::from_vec(Vec::with_capacity(SV_SPARE6))
+}
+
+pub fn smallvec_with_capacity_spare<A: smallvec::Array>(n: usize) -> smallvec::SmallVec<A> {
+    // requests are at most p + q here; keep the capacity concrete
+    assert!(n <= SV_SPARE);
+    smallvec::SmallVec::from_vec(Vec::with_capacity(SV_SPARE))
+}
+
+/// `SmallVec::push` when the capacity suffices (asserted): write + set_len, no growth path.
+pub fn smallvec_push_nogrow<A: smallvec::Array>(v: &mut smallvec::SmallVec<A>, value: A::Item) {
+    let len = v.len();
+    assert!(len < v.capacity(), "spare capacity of the SmallVec model exhausted");
+    unsafe {
+        std::ptr::write(v.as_mut_ptr().add(len), value);
+        v.set_len(len + 1);
+    }
+}
+
+/// `SmallVec::insert` when the capacity suffices (asserted): element-wise shift instead of a
+/// memmove with a symbolic byte count.
+pub fn smallvec_insert_nogrow<A: smallvec::Array>(
+    v: &mut smallvec::SmallVec<A>,
+    index: usize,
+    element: A::Item,
+) {
+    let len = v.len();
+    assert!(index <= len, "insertion index out of bounds");
+    assert!(len < v.capacity(), "spare capacity of the SmallVec model exhausted");
+    unsafe {
+        let p = v.as_mut_ptr();
+        let mut i = len;
+        while i > index {
+            std::ptr::write(p.add(i), std::ptr::read(p.add(i - 1)));
+            i -= 1;
+        }
+        std::ptr::write(p.add(index), element);
+        v.set_len(len + 1);
+    }
+}
+
+/// `SmallVec::remove`: element-wise shift.
+pub fn smallvec_remove_shift<A: smallvec::Array>(
+    v: &mut smallvec::SmallVec<A>,
+    index: usize,
+) -> A::Item {
+    let len = v.len();
+    assert!(index < len, "removal index out of bounds");
+    unsafe {
+        let p = v.as_mut_ptr();
+        let item = std::ptr::read(p.add(index));
+        let mut i = index;
+        while i + 1 < len {
+            std::ptr::write(p.add(i), std::ptr::read(p.add(i + 1)));
+            i += 1;
+        }
+        v.set_len(len - 1);
+        item
+    }
+}
+
+/// `SmallVec::reserve` when the capacity suffices (asserted): no growth path.
+pub fn smallvec_reserve_nogrow<A: smallvec::Array>(v: &mut smallvec::SmallVec<A>, additional: usize) {
+    assert!(
+        v.capacity() - v.len() >= additional,
+        "spare capacity of the SmallVec model exhausted"
+    );
+}
+
+/// `SmallVec::drain(lo..hi)` for callers that discard the drained elements (all of ids.rs): the
+/// range is removed by element-wise shifting and an exhausted `Drain` over a leaked empty vector
+/// is returned (a `Drain` cannot be constructed otherwise).
+fn leak_empty_smallvec<'x, A: smallvec::Array + 'x>() -> &'x mut smallvec::SmallVec<A> {
+    Box::leak(Box::new(smallvec::SmallVec::new()))
+}
+
+pub fn smallvec_drain_discard<A: smallvec::Array, R: std::ops::RangeBounds<usize>>(
+    v: &mut smallvec::SmallVec<A>,
+    range: R,
+) -> smallvec::Drain<'_, A> {
+    use std::ops::Bound::*;
+    let len = v.len();
+    let start = match range.start_bound() {
+        Included(&n) => n,
+        Excluded(&n) => n + 1,
+        Unbounded => 0,
+    };
+    let end = match range.end_bound() {
+        Included(&n) => n + 1,
+        Excluded(&n) => n,
+        Unbounded => len,
+    };
+    assert!(start <= end && end <= len, "drain range out of bounds");
+    let removed = end - start;
+    unsafe {
+        let p = v.as_mut_ptr();
+        let mut i = start;
+        while i < end {
+            std::ptr::drop_in_place(p.add(i));
+            i += 1;
+        }
+        let mut i = end;
+        while i < len {
+            std::ptr::write(p.add(i - removed), std::ptr::read(p.add(i)));
+            i += 1;
+        }
+        v.set_len(len - removed);
+    }
+    leak_empty_smallvec::<A>().drain(0..0)
+}
